@@ -294,7 +294,7 @@ namespace Pistache::Tcp
                         // pop_front kills buffer - so we cannot continue loop or use buffer
                         // after this point
                         wq.pop_front();
-                        wq.push_front(WriteEntry(std::move(deferred), bufferHolder, flags));
+                        wq.push_front(WriteEntry(std::move(deferred), bufferHolder, fd, flags));
                         reactor()->modifyFd(key(), fd, NotifyOn::Read | NotifyOn::Write,
                                             Polling::Mode::Edge);
                         // wait for the socket to become writable again instead of
